@@ -101,6 +101,14 @@ func genCLICase(t *rapid.T) *CLICase {
 		for p, text := range rw.ByModule[m.Dir] {
 			rel := dirOf[m.Dir] + "/" + p
 			ft, err := formatText(rel, text)
+			for i := 0; err == nil && i < 3; i++ {
+				// `format --exit-code` on an untouched tree must be clean: start from a fixpoint of the formatter
+				var again string
+				if again, err = formatText(rel, ft); again == ft {
+					break
+				}
+				ft = again
+			}
 			if err != nil {
 				t.Fatalf("harness: cannot format generated file: %v", err)
 			}
@@ -425,6 +433,14 @@ func checkCLI(c *CLICase, tmp string) (key, msg string, err error) {
 	}
 	for k := range got {
 		if _, ok := want[k]; !ok {
+			// is the generated baseline dirty (a harness problem), or did a planted problem leak into another file?
+			if err := osext.Chdir(filepath.Join(tmp, "against")); err == nil {
+				code, so, se := bufcli.Run(context.Background(), env, "", "lint")
+				_ = osext.Chdir(root)
+				if code != 0 {
+					return "", "", fmt.Errorf("generated baseline workspace is not lint-clean (exit %d):\n%s%s", code, so, se)
+				}
+			}
 			return "format-disagree:planted", fmt.Sprintf("annotation %s in %q was not planted (planted: %+v)\n%s", k.rule, k.path, exp.annotations, describe("json")), nil
 		}
 	}
